@@ -18,6 +18,7 @@ import YowsupVerif.Drv.Trust
 import YowsupVerif.Drv.E2E
 import YowsupVerif.Drv.Payload
 import YowsupVerif.Drv.Conc
+import YowsupVerif.Drv.SendBuf
 import YowsupVerif.Drv.Handshake
 open Yow Yow.Drv
 
@@ -39,6 +40,7 @@ def step (s : DrvState) (line : String) : DrvState × String :=
   | "coder" :: rest => (s, coderStep rest)
   | "iq" :: rest => let r := iqStep s.iq rest; ({ s with iq := r.1 }, r.2)
   | "hs" :: rest => let r := hsStep Yow.Gen.hsCfg s.hs rest; ({ s with hs := r.1 }, r.2)
+  | "sendbuf" :: rest => (s, sendBufStep rest)
   | "conc" :: rest => (s, concStep rest)
   | "pl" :: rest => (s, payloadStep rest)
   | "e2e" :: rest => let r := e2eStep s.e2e rest; ({ s with e2e := r.1 }, r.2)
